@@ -1,0 +1,60 @@
+//go:build verif
+
+package run
+
+import (
+	"github.com/prometheus/client_golang/prometheus"
+	dto "github.com/prometheus/client_model/go"
+	"github.com/relex/slog-agent/base"
+)
+
+// This file is compiled only with the build tag "verif" (verification harness). It adds entry points to
+// unexported functions and read-only peeks; it changes no production code path.
+
+// VerifReload runs the reload procedure synchronously, exactly as the SIGHUP goroutine does.
+func (orc *ReloadableOrchestrator) VerifReload() {
+	orc.reload()
+}
+
+// VerifPeekSink returns the downstream sink currently stored for the client number (nil if none).
+//
+// No lock is taken: to be called in quiescent states only.
+func (orc *ReloadableOrchestrator) VerifPeekSink(clientNumber base.ClientNumber) base.BufferReceiverSink {
+	return orc.downstreamSinks[clientNumber]
+}
+
+// VerifPeekAddr returns the client address remembered for the client number.
+func (orc *ReloadableOrchestrator) VerifPeekAddr(clientNumber base.ClientNumber) string {
+	return orc.downstreamAddrs[clientNumber]
+}
+
+// VerifPeekDownstream returns the current downstream orchestrator. No lock is taken.
+func (orc *ReloadableOrchestrator) VerifPeekDownstream() base.Orchestrator {
+	return orc.downstream
+}
+
+// VerifReset empties the sink table below the given client number and installs the given downstream
+// orchestrator, so that one ReloadableOrchestrator (8 MB of tables and a signal goroutine that never ends)
+// can be reused for many independent test scenarios. Nothing of the old downstream is closed or shut down.
+func (orc *ReloadableOrchestrator) VerifReset(downstream base.Orchestrator, below base.ClientNumber) {
+	orc.downstreamMutex.Lock()
+	defer orc.downstreamMutex.Unlock()
+	for i := base.ClientNumber(0); i < below && i < base.MaxClientNumber; i++ {
+		orc.downstreamSinks[i] = nil
+		orc.downstreamAddrs[i] = ""
+	}
+	orc.downstream = downstream
+}
+
+// VerifReloadCounts returns the values of slogagent_reloads_total{status="success"|"failure"}.
+func VerifReloadCounts() (success float64, failure float64) {
+	return verifCounterValue(reloadSuccessCounter), verifCounterValue(reloadFailureCounter)
+}
+
+func verifCounterValue(c prometheus.Counter) float64 {
+	m := &dto.Metric{}
+	if err := c.Write(m); err != nil {
+		return -1
+	}
+	return m.GetCounter().GetValue()
+}
